@@ -182,3 +182,15 @@ pub fn trace_classes(tr: &Trace, out: &mut crate::core::Outcome) -> (bool, bool)
     }
     (predictive, stereo_mode)
 }
+
+pub fn lpc_stress_case_strategy() -> BoxedStrategy<StreamCase> {
+    (gen::lpc_stress_strategy(), entry_strategy(false), src_strategy())
+        .prop_map(|((mut cfg, inp), entry, src)| {
+            cfg.multithread = false;
+            if inp.seed % 2 == 0 {
+                cfg.use_fixed = false;
+            }
+            StreamCase { cfg, inp, entry, src }
+        })
+        .boxed()
+}
